@@ -37,9 +37,9 @@ WHOLE_FILE_MODELLED = [STD_TEXT, "BufRead::lines / str::lines / UTF-8 decoding",
                        "threadpool/mpsc scheduling (the whole-run model is sequential; C02 proves schedule independence over the coordinator model)"]
 
 PROPS["C01"] = {
-    "jobs": [{"cmd": "c01", "shards": 32, "shards_thorough": 48}],
+    "jobs": [{"cmd": "c01", "shards": 32, "shards_thorough": 48}, {"cmd": "c01p", "shards": 32, "shards_thorough": 48}],
     "cli": False,
-    "trusted_base": ["M5 correspondence: Txtpp::run (library, in process, real sh) vs Lean runProject on generated projects; verdict + every byte of the tree on success"],
+    "trusted_base": ["M5 correspondence: Txtpp::run (library, in process, real sh) vs Lean runProject on generated projects; verdict + every byte of the tree on success", "M5p correspondence: single passes through the re-exported preprocess vs Lean runPass (outcome kind, dependency list of a first pass, bytes, markers, touch set) in all four modes"],
     "modelled": WHOLE_FILE_MODELLED,
     "level_text": "Lean theorem machine_eq_spec / pp_refines_spec: for every directive semantics, every source and every trailing option the streaming machine of Pp::run_internal (current directive, tail line, pending-newline flag) equals the README-shaped specification parse -> eval -> render, including when it fails. The concrete machine (all seven directives, tags, temp files, first/second pass, four modes) is compared with the real library on generated multi-file projects on every run; inside the documented domain a difference is an output that is not what the semantics prescribe.",
     "design_ref": "5 C01, 4.2, 4.3",
